@@ -91,9 +91,15 @@ impl<L: Language, N: Analysis<L>> EGraph<L, N> {
             final_cap = &final_cap - &grp.orbit(d);
         }
 
-        c.slots = cap.clone();
+        let old_slots = std::mem::replace(&mut c.slots, cap.clone());
         let generators = c.group.generators();
         let _ = c;
+
+        // A generator that maps a remaining slot to a newly redundant one does not restrict to a permutation of
+        // `cap`: it shows that further slots are redundant. It cannot stay in the group; instead it is
+        // re-applied as an equation below, which shrinks the class further.
+        let leaks = |p: &ProvenPerm| p.elem.iter().any(|(x, y)| cap.contains(&x) != cap.contains(&y));
+        let leaking: Vec<ProvenPerm> = generators.iter().filter(|p| leaks(p)).cloned().collect();
 
         let restrict_proven = |proven_perm: ProvenPerm| {
             if CHECKS {
@@ -121,7 +127,11 @@ impl<L: Language, N: Analysis<L>> EGraph<L, N> {
             out
         };
 
-        let generators = generators.into_iter().map(restrict_proven).collect();
+        let generators = generators
+            .into_iter()
+            .filter(|p| !leaks(p))
+            .map(restrict_proven)
+            .collect();
         let identity = ProvenPerm::identity(id, &cap, syn_slots, self.proof_registry.clone());
         if CHECKS {
             identity.check();
@@ -130,6 +140,13 @@ impl<L: Language, N: Analysis<L>> EGraph<L, N> {
         c.group = Group::new(&identity, generators);
 
         self.touched_class(from.id, PendingType::Full);
+
+        for p in leaking {
+            // p states `id[identity] == id[p]` over the slots from before.
+            let l = AppliedId::new(id, SlotMap::identity(&old_slots));
+            let r = AppliedId::new(id, p.elem.clone());
+            self.union_internal(&l, &r, ghost!(p.proof));
+        }
     }
 
     pub(crate) fn rebuild(&mut self) {
